@@ -467,7 +467,7 @@ def run(prog: Program, chk: Check) -> None:
     chk.extra["role_vocabulary"] = roles.VOCAB
     chk.extra["u3_exempt"] = U3_EXEMPT
     chk.extra["pass_through"] = PASS_THROUGH
-    u1_u3(prog, chk)
-    u1_counts(prog, chk, TimeForms(prog))
-    u2(prog, chk)
-    u2b(prog, chk)
+    chk.call(u1_u3, prog, chk)
+    chk.call(u1_counts, prog, chk, TimeForms(prog))
+    chk.call(u2, prog, chk)
+    chk.call(u2b, prog, chk)
